@@ -125,7 +125,8 @@ TEXTS["C19"] = dict(
     technique="hostile-client fault injection against a live in-process daemon edge: exhaustive server-config x method x credential x wallet table over real gRPC/TLS (no scheduler applies)",
     level_text="The complete 832-case table {authority configured, none configured} x 16 RPC methods x 13 caller credentials x 2 target wallets is run against real services/api/grpc "
                "servers (TLS 1.3, client-certificate verification, interceptors, handlers, services) on a loopback port, with well-formed payloads that would succeed for a permitted client. "
-               "Untrusted callers must obtain no response message and change nothing; trusted callers are served strictly by the subject name of their verified certificate.",
+               "Untrusted callers must obtain no response message and change nothing; trusted callers are served strictly by the subject name of their verified certificate. One worker "
+               "runs two differently certified groups of clients against the daemon at the same time (free-running): nobody is served under another caller's name.",
     level_note="No schedule, clock or fault sequence is involved in this property: the simulation technique contributes the hostile peers and the in-process real edge, not interleavings (DESIGN.md section 8). "
                "Trusted: Go crypto/tls and x509, gRPC. Certificates: the repository's testing authority plus authorities generated at run time (one placed in the host trust store via SSL_CERT_FILE).")
 TEXTS["C20"] = dict(
